@@ -21,6 +21,11 @@ Bodies == { Arr(<<B0, EmptyMap, Nil, B0>>),                               \* Sig
             Arr(<<B0, EmptyMap, B1>>),                                    \* Encrypt0 / Signature
             Arr(<<Nat2I(1)>>), Nat2I(1), EmptyMap }
 
+(* a COSE_Encrypt0 whose unprotected header holds an array nested d deep: total nesting d + 2 *)
+RECURSIVE NestArr(_)
+NestArr(d) == IF d = 0 THEN Nat2I(0) ELSE Arr(<<NestArr(d - 1)>>)
+DeepBody(d) == Arr(<<B0, Map(<< <<Z2I(99), NestArr(d)>> >>), Nil>>)
+
 VARIABLE st
 Init == st = [mode |-> "init"]
 Next == st.mode = "init" /\
@@ -28,8 +33,10 @@ Next == st.mode = "init" /\
   \/ \E b \in Bodies : \E t \in TagNums : \E w \in WidthsFor(t) : st' = [mode |-> "t1", body |-> b, t1 |-> t, w1 |-> w]
   \/ \E b \in Bodies : \E t \in RegTags \cup {<<217, 247>>} : \E u \in {<<16>>, <<17>>, <<18>>, <<96>>, <<97>>, <<98>>, <<217, 247>>} :
         st' = [mode |-> "t2", body |-> b, t1 |-> t, w1 |-> MinWidth(t), t2 |-> u]
+  \/ \E d \in {253, 254} : st' = [mode |-> "t1", body |-> DeepBody(d), t1 |-> <<16>>, w1 |-> 0, deep |-> d]
 Spec == Init /\ [][Next]_st
 Go == st.mode # "init"
+Deep == "deep" \in DOMAIN st
 
 Item == CASE st.mode = "t0" -> st.body
           [] st.mode = "t1" -> Tag(st.t1, st.body)
@@ -40,8 +47,12 @@ Wire == CASE st.mode = "t0" -> Enc(st.body)
 
 (* Prop *)
 Tagged_WF(ty, item) == item.t = "tag" /\ item.tag = MagOfNat(ValueOfName("CborTag", ty)) /\ Msg_WF(ty, item.x)
-InvParse == Go => LET r == ReadToValue(Wire) IN r.ok /\ r.v = Item
-InvTagged == Go => \A i \in 1..Len(TagTypes) : LET ty == TagTypes[i] r == FromTaggedSlice(ty, Wire) IN
+InvParse == Go /\ ~("deep" \in DOMAIN st) => LET r == ReadToValue(Wire) IN r.ok /\ r.v = Item
+(* finding F8 (dependency behaviour): the tag itself costs one level of ciborium's recursion budget, so a body nested to *)
+(* exactly the limit is accepted untagged but rejected once its registered tag is applied                                  *)
+InvF8 == Go /\ Deep => LET u == FromSlice("CoseEncrypt0", "", Enc(st.body)).ok t == FromTaggedSlice("CoseEncrypt0", Wire).ok IN
+           u /\ (t <=> st.deep = 253)
+InvTagged == Go /\ ~(Deep /\ st.deep = 254) => \A i \in 1..Len(TagTypes) : LET ty == TagTypes[i] r == FromTaggedSlice(ty, Wire) IN
                      (r.ok <=> Tagged_WF(ty, Item)) /\ (r.ok => r.x = Msg_ValueOf(ty, Item.x))
 InvUntagged == Go /\ Item.t = "tag" => \A i \in 1..Len(TagTypes) : ~FromSlice(TagTypes[i], "", Wire).ok
 (* bytes tagged for one type are never accepted as another *)
@@ -49,14 +60,15 @@ InvExclusive == Go => \A i, j \in 1..Len(TagTypes) : i # j => ~(FromTaggedSlice(
 InvToTagged == Go /\ st.mode = "t0" => \A i \in 1..Len(TagTypes) : LET ty == TagTypes[i] d == Msg_FromCbor(ty, st.body) IN
                  d.ok => ToTaggedVec(ty, d.x).x = Hd(6, MagOfNat(ValueOfName("CborTag", ty))) \o ToVec(ty, d.x).x
 
-ExpT(ty) == IF Tagged_WF(ty, Item) THEN [accept |-> TRUE, val |-> <<Msg_ValueOf(ty, Item.x)>>, err |-> "", pinerr |-> FALSE, judge |-> TRUE]
+ExpT(ty) == IF Tagged_WF(ty, Item) THEN [accept |-> TRUE, val |-> IF "deep" \in DOMAIN st THEN <<>> ELSE <<Msg_ValueOf(ty, Item.x)>>, err |-> "", pinerr |-> FALSE, judge |-> TRUE]
             ELSE [accept |-> FALSE, val |-> <<>>, err |-> FromTaggedSlice(ty, Wire).err, pinerr |-> FALSE, judge |-> TRUE]
 ExpU(ty) == IF Msg_WF(ty, Item) THEN [accept |-> TRUE, val |-> <<Msg_ValueOf(ty, Item)>>, err |-> "", pinerr |-> FALSE, judge |-> TRUE]
             ELSE [accept |-> FALSE, val |-> <<>>, err |-> FromSlice(ty, "", Wire).err, pinerr |-> FALSE, judge |-> TRUE]
 Emit == Go =>
   /\ PrintT(ToJson([kind |-> "decode", props |-> <<"C14">>, api |-> "tagged", reg |-> "", wires |-> <<Wire>>, nt |-> TRUE,
+                    tags |-> IF Deep /\ st.deep = 254 THEN <<"tagged-body-at-recursion-limit">> ELSE <<>>,
                     multi |-> [i \in 1..Len(TagTypes) |-> [ty |-> TagTypes[i], expect |-> ExpT(TagTypes[i])]]]))
-  /\ PrintT(ToJson([kind |-> "decode", props |-> <<"C14">>, api |-> "slice", reg |-> "", item |-> Item, wires |-> <<Wire>>, nt |-> TRUE,
+  /\ Deep \/ PrintT(ToJson([kind |-> "decode", props |-> <<"C14">>, api |-> "slice", reg |-> "", item |-> Item, wires |-> <<Wire>>, nt |-> TRUE,
                     multi |-> [i \in 1..Len(TagTypes) |-> [ty |-> TagTypes[i], expect |-> ExpU(TagTypes[i])]]]))
   /\ st.mode = "t0" => \A i \in 1..Len(TagTypes) : LET ty == TagTypes[i] d == Msg_FromCbor(ty, st.body) IN
        d.ok => PrintT(ToJson([kind |-> "encode", props |-> <<"C14">>, ty |-> ty, reg |-> "", x |-> d.x, api |-> "tagged", nt |-> TRUE,
